@@ -10,6 +10,7 @@ What is proved here: IF the Lean verifier accepts a function dump (`verify fn = 
 (`Yarel/Model/FrameMachine.lean`, a nondeterministic over-approximation of `Vm::run` for one frame) can
 reach from the function's entry satisfies the property.  The proof only uses `checkAnnot fn σ = true`.
 -/
+import Yarel.Gen.Limits
 import Yarel.Proofs.C04Sound
 import Yarel.Proofs.C04Progress
 import Yarel.Model.JumpLimits
@@ -189,65 +190,82 @@ example : verify fnF15 = .error (.pendingReturnLeak 27) := by decide +kernel
 
 open Yarel.JumpLimits
 
-/-- A forward distance above `u16::MAX + 1` is rejected ... -/
-theorem patchJump_rejects (len offset : Nat) (h : offset + 2 + 65536 < len) :
-    patchJump len offset = .tooLarge := by
+/-- The limit of the model is the constant of common.rs as it is now (regenerated table). -/
+theorem jump_limit_is_the_sources : Yarel.Gen.limits.lookup "JUMP_SIZE_MAX" = some (JUMP_SIZE_MAX : Int) := by decide +kernel
+#print axioms jump_limit_is_the_sources
+
+/-- Forward jumps (`patch_jump`, also `break`): whatever is ACCEPTED is encoded exactly — the operand fits 16 bits and the VM lands
+on the intended target `len`; a distance is rejected iff it exceeds `u16::MAX`; the subtraction underflows only when the
+placeholder lies beyond the code (never for a placeholder the compiler itself emitted: `offset + 2 ≤ len`). -/
+theorem patchJump_sound (len offset operand : Nat) (h : patchJump len offset = .ok operand) :
+    operand < 65536 ∧ forwardTarget offset operand = len := by
+  unfold patchJump JUMP_SIZE_MAX at h
+  by_cases h1 : len < offset + 2
+  · simp [h1] at h
+  · by_cases h2 : len - offset - 2 > 65535
+    · simp [h1, h2] at h
+    · simp only [h1, h2, if_false] at h
+      injection h with h
+      subst h
+      unfold forwardTarget
+      rw [Nat.mod_eq_of_lt (by omega)]
+      omega
+#print axioms patchJump_sound
+
+theorem patchJump_decides (len offset : Nat) (h : offset + 2 ≤ len) :
+    (patchJump len offset = .tooLarge ↔ 65535 < len - offset - 2) ∧ patchJump len offset ≠ .fault := by
   unfold patchJump JUMP_SIZE_MAX
-  rw [if_neg (by omega), if_pos (by omega)]
+  have h1 : ¬ len < offset + 2 := by omega
+  by_cases hd : len - offset - 2 > 65535
+  · simp [h1, hd]
+  · simp [h1, hd]
+#print axioms patchJump_decides
 
-/-- ... a distance up to `u16::MAX` is encoded exactly: the VM lands on the intended target `len` ... -/
-theorem patchJump_exact (len offset : Nat) (h1 : offset + 2 ≤ len) (h2 : len ≤ offset + 2 + 65535) :
-    ∃ operand, patchJump len offset = .ok operand ∧ operand < 65536 ∧
-      forwardTarget offset operand = len := by
-  refine ⟨len - offset - 2, ?_, by omega, by unfold forwardTarget; omega⟩
+/-- Backward jumps (`emit_loop`). -/
+theorem emitLoop_sound (len loopStart operand : Nat) (h : emitLoop len loopStart = .ok operand) :
+    operand < 65536 ∧ loopTarget len operand = loopStart := by
+  unfold emitLoop JUMP_SIZE_MAX at h
+  by_cases h1 : len < loopStart
+  · simp [h1] at h
+  · by_cases h2 : len - loopStart + 2 > 65535
+    · simp [h1, h2] at h
+    · simp only [h1, h2, if_false] at h
+      injection h with h
+      subst h
+      unfold loopTarget
+      rw [Nat.mod_eq_of_lt (by omega)]
+      omega
+#print axioms emitLoop_sound
+
+theorem emitLoop_decides (len loopStart : Nat) (h : loopStart ≤ len) :
+    (emitLoop len loopStart = .tooLarge ↔ 65535 < len - loopStart + 2) ∧ emitLoop len loopStart ≠ .fault := by
+  unfold emitLoop JUMP_SIZE_MAX
+  have h1 : ¬ len < loopStart := by omega
+  by_cases hd : len - loopStart + 2 > 65535
+  · simp [h1, hd]
+  · simp [h1, hd]
+#print axioms emitLoop_decides
+
+/-- `patch_offset_at` (operands of `PushExcHandler`). -/
+theorem patchOffsetAt_sound (len offset operand : Nat) (h : patchOffsetAt len offset = .ok operand) :
+    operand < 65536 ∧ offset + operand = len := by
+  unfold patchOffsetAt JUMP_SIZE_MAX at h
+  by_cases h1 : len < offset
+  · simp [h1] at h
+  · by_cases h2 : len - offset > 65535
+    · simp [h1, h2] at h
+    · simp only [h1, h2, if_false] at h
+      injection h with h
+      subst h
+      rw [Nat.mod_eq_of_lt (by omega)]
+      omega
+#print axioms patchOffsetAt_sound
+
+/-- The boundary itself, both sides (what the repair F9 moved): 65535 is encoded, 65536 is rejected. -/
+example (offset : Nat) : patchJump (offset + 2 + 65535) offset = .ok 65535 ∧ patchJump (offset + 2 + 65536) offset = .tooLarge := by
   unfold patchJump JUMP_SIZE_MAX
-  rw [if_neg (by omega), if_neg (by omega), Nat.mod_eq_of_lt (by omega)]
-
-/-- ... but (defect F9) a distance of exactly 65536 is ACCEPTED and encoded as 0: the VM continues
-directly after the jump instruction instead of 65536 bytes further on. -/
-theorem patchJump_F9 (offset : Nat) :
-    patchJump (offset + 2 + 65536) offset = .ok 0 ∧
-    forwardTarget offset 0 = offset + 2 ∧ forwardTarget offset 0 ≠ offset + 2 + 65536 := by
-  refine ⟨?_, rfl, by unfold forwardTarget; omega⟩
-  unfold patchJump JUMP_SIZE_MAX
-  rw [if_neg (by omega), if_neg (by omega)]
-  congr 1
-  omega
-
-#print axioms patchJump_F9
-
-/-- The same three facts for `emit_loop`. -/
-theorem emitLoop_rejects (len loopStart : Nat) (h : loopStart + 65534 < len) :
-    emitLoop len loopStart = .tooLarge := by
-  unfold emitLoop JUMP_SIZE_MAX
-  rw [if_neg (by omega), if_pos (by omega)]
-
-theorem emitLoop_exact (len loopStart : Nat) (h1 : loopStart ≤ len) (h2 : len ≤ loopStart + 65533) :
-    ∃ operand, emitLoop len loopStart = .ok operand ∧ operand < 65536 ∧
-      loopTarget len operand = loopStart := by
-  refine ⟨len - loopStart + 2, ?_, by omega, by unfold loopTarget; omega⟩
-  unfold emitLoop JUMP_SIZE_MAX
-  rw [if_neg (by omega), if_neg (by omega), Nat.mod_eq_of_lt (by omega)]
-
-theorem emitLoop_F9 (loopStart : Nat) :
-    emitLoop (loopStart + 65534) loopStart = .ok 0 ∧
-    loopTarget (loopStart + 65534) 0 = loopStart + 65536 ∧
-    loopTarget (loopStart + 65534) 0 ≠ loopStart := by
-  refine ⟨?_, by unfold loopTarget; omega, by unfold loopTarget; omega⟩
-  unfold emitLoop JUMP_SIZE_MAX
-  rw [if_neg (by omega), if_neg (by omega)]
-  congr 1
-  omega
-
-#print axioms emitLoop_F9
-
-/-- `patch_offset_at` (operands of `PushExcHandler`): same boundary. -/
-theorem patchOffsetAt_F9 (offset : Nat) :
-    patchOffsetAt (offset + 65537) offset = .tooLarge ∧ patchOffsetAt (offset + 65536) offset = .ok 0 := by
-  refine ⟨?_, ?_⟩ <;> unfold patchOffsetAt JUMP_SIZE_MAX
+  constructor
+  · rw [if_neg (by omega), if_neg (by omega)]; congr 1; omega
   · rw [if_neg (by omega), if_pos (by omega)]
-  · rw [if_neg (by omega), if_neg (by omega)]
-    congr 1
-    omega
 
 end Yarel.C04
